@@ -39,6 +39,44 @@ func received(e *Endpoint) [][]byte {
 	return out
 }
 
+// monDeliveryBound (C06, scenarios whose receivers read eagerly): a message
+// accepted by Send is returned by the peer's Recv within `bound` of its
+// acceptance or of the last transport fault, whichever is later - whatever
+// else is going on on the connection (the peer streaming data of its own,
+// keepalive traffic).
+func monDeliveryBound(bound time.Duration) func(w *World) {
+	return func(w *World) {
+		if w.C.Conn == nil || w.S.Conn == nil || w.C.closedAt >= 0 || w.S.closedAt >= 0 {
+			return
+		}
+		check := func(dir string, from, to *Endpoint) {
+			got := len(received(to))
+			k := 0
+			for _, c := range from.calls("send") {
+				if !c.Returned || c.Err != "" {
+					continue
+				}
+				k++
+				if k <= got {
+					continue
+				}
+				since := c.End
+				if w.lastFaultAt > since {
+					since = w.lastFaultAt
+				}
+				if w.s.Now() > since+bound {
+					w.fail("progress/delivery-late/"+dir,
+						"%s: message #%d accepted by Send at %v has not been returned by the peer's Recv %v later (last transport fault at %v, bound %v, both ends open, receiver waiting)",
+						dir, k-1, c.End, w.s.Now()-c.End, w.lastFaultAt, bound)
+				}
+				return
+			}
+		}
+		check("c2s", w.C, w.S)
+		check("s2c", w.S, w.C)
+	}
+}
+
 // offered returns every payload passed to Send (whatever the result), in
 // call order.
 func offered(e *Endpoint) [][]byte {
